@@ -260,7 +260,7 @@ func worldGroups(w *World) {
 				return 0
 			}() {
 			case 0:
-				key = "key-wrong"
+				key = []string{"key-wrong", "", "key-righ", "key-right-x", "KEY-RIGHT"}[r.Intn(5)]
 			case 1:
 				variant = 1
 			}
